@@ -3,6 +3,7 @@
 package hashgraph
 
 import (
+	"bytes"
 	"fmt"
 
 	"github.com/dgraph-io/badger"
@@ -870,6 +871,68 @@ func mapError(err error, name, key string) error {
 		}
 	}
 	return err
+}
+
+// flushBootstrap writes to the DB the Blocks, Rounds and Frames that a Bootstrap
+// replay left in the cache, when the DB does not hold them in that form.
+func (s *BadgerStore) flushBootstrap() error {
+	same := func(a []byte, errA error, b []byte, errB error) bool {
+		return errA == nil && errB == nil && bytes.Equal(a, b)
+	}
+
+	for i := s.inmemStore.LastBlockIndex(); i >= 0; i-- {
+		block, err := s.inmemStore.GetBlock(i)
+		if err != nil {
+			break
+		}
+		cached, errC := block.Marshal()
+		var stored []byte
+		dbBlock, errS := s.dbGetBlock(i)
+		if errS == nil {
+			stored, errS = dbBlock.Marshal()
+		}
+		if !same(cached, errC, stored, errS) {
+			if err := s.dbSetBlock(block); err != nil {
+				return err
+			}
+		}
+
+		frame, err := s.inmemStore.GetFrame(block.RoundReceived())
+		if err != nil {
+			continue
+		}
+		cached, errC = frame.Marshal()
+		stored = nil
+		dbFrame, errS := s.dbGetFrame(block.RoundReceived())
+		if errS == nil {
+			stored, errS = dbFrame.Marshal()
+		}
+		if !same(cached, errC, stored, errS) {
+			if err := s.dbSetFrame(frame); err != nil {
+				return err
+			}
+		}
+	}
+
+	for r := s.inmemStore.LastRound(); r >= 0; r-- {
+		round, err := s.inmemStore.GetRound(r)
+		if err != nil {
+			break
+		}
+		cached, errC := round.Marshal()
+		var stored []byte
+		dbRound, errS := s.dbGetRound(r)
+		if errS == nil {
+			stored, errS = dbRound.Marshal()
+		}
+		if !same(cached, errC, stored, errS) {
+			if err := s.dbSetRound(r, round); err != nil {
+				return err
+			}
+		}
+	}
+
+	return nil
 }
 
 //GetMaintenanceMode is a getter
